@@ -26,10 +26,18 @@ class Undecided(Exception):
 class Raises(Exception):
     """the evaluated code itself raises on these (valid) concrete arguments"""
 
-    def __init__(self, what, node=None):
+    def __init__(self, what, node=None, exc=None):
         Exception.__init__(self, what)
         self.what = what
         self.node = node
+        self.exc = exc  # name of the exception class of an explicit `raise`
+
+
+def _exc_class(st):
+    e = st.exc if isinstance(st, ast.Raise) else None
+    if isinstance(e, ast.Call):
+        e = e.func
+    return norm_text(e).split(".")[-1] if e is not None else None
 
 
 class _Return(Exception):
@@ -184,6 +192,7 @@ class PEval:
         self.steps = 0
         self.shapes = shapes or {}  # term -> concrete sizes of the non-batch axes
         self.simplify = None  # optional rewriting of freshly built terms (inverse cancellation ...)
+        self.symfn_calls = []  # (name, arguments) of every uninterpreted function called so far
 
     def mk(self, term):
         return Sym(self.simplify(term) if self.simplify is not None else term)
@@ -301,7 +310,7 @@ class PEval:
             if st.body and all(isinstance(s, ast.Raise) for s in st.body) and not st.orelse:
                 t = self.try_truth(st.test, env)
                 if t is True:
-                    raise Raises("rejects the configuration: `if %s: raise %s`" % (norm_text(st.test)[:60], norm_text(st.body[0].exc)[:40] if st.body[0].exc is not None else ""), st)
+                    raise Raises("rejects the configuration: `if %s: raise %s`" % (norm_text(st.test)[:60], norm_text(st.body[0].exc)[:40] if st.body[0].exc is not None else ""), st, _exc_class(st.body[0]))
                 return
             t = self.try_truth(st.test, env)
             if t is None:
@@ -324,7 +333,7 @@ class PEval:
             self.block(st.body, env, yields)
             return
         if isinstance(st, ast.Raise):
-            raise Undecided("raise reached")
+            raise Raises("raises `%s`" % norm_text(st)[:70], st, _exc_class(st))
         raise Undecided("statement %s" % type(st).__name__)
 
     def _try(self, e, env):
@@ -794,6 +803,7 @@ class PEval:
         if isinstance(f, SymFn):
             targs = tuple(a.term if isinstance(a, Sym) else a for a in args) + tuple((k, v.term if isinstance(v, Sym) else v) for k, v in sorted(kw.items()))
             t = ("call", f.name) + targs
+            self.symfn_calls.append(t)
             if f.n_out == 2:
                 return (self.mk(("item", t, 0)), self.mk(("item", t, 1)))
             return self.mk(t)
